@@ -745,6 +745,28 @@ def r8_6(ctx):
         ctx.bad("R8.6", ps.module, ps.qual, "literal slice by count", "_p_string no longer takes literals strictly by octet count", ps.node.lineno)
 
 
+def r8_7(ctx):
+    """Date-time arguments (APPEND's date-time, the SEARCH date keys) are decoded by utils.parsedate through
+    email.utils.parsedate_to_datetime, which already yields the instant the text denotes, zone included; only a text without
+    usable zone comes back naive.  The one adjustment allowed is to attach UTC to such a naive result.  Replacing the zone of
+    an aware result keeps the wall-clock digits and moves the instant by the zone offset."""
+    from .common import pm_of
+    p = ctx.p
+    fi = p.func("utils.parsedate")
+    ctx.analysed(fi)
+    reps = [c for c in calls_in(fi.node) if call_name(c) == "replace" and any(k.arg == "tzinfo" for k in c.keywords)]
+    pm = pm_of(p, fi)
+    guarded = pm.find_all("if dt.tzinfo is None:\n    dt = dt.replace(tzinfo=UTC)") + pm.find_all("if dt.tzinfo is None:\n    return dt.replace(tzinfo=UTC)") + pm.find_all("dt.replace(tzinfo=UTC) if dt.tzinfo is None else dt")
+    inside = {id(c) for gnode in guarded for c in calls_in(gnode)}
+    loose = [c for c in reps if id(c) not in inside]
+    if not pm.has("dt = email.utils.parsedate_to_datetime(datetime_str)") and not pm.has("email.utils.parsedate_to_datetime(datetime_str)"):
+        ctx.bad("R8.7", fi.module, fi.qual, "email.utils.parsedate_to_datetime(datetime_str)", "parsedate no longer decodes its argument with email.utils.parsedate_to_datetime", fi.node.lineno)
+    elif loose:
+        ctx.bad("R8.7", fi.module, fi.qual, norm(loose[0]), "parsedate replaces the zone of a date-time that already carries one: `05-Jan-1999 20:55:23 -0800` is decoded as 20:55:23 UTC, eight hours (possibly a day) away from the instant the client wrote - APPEND stores the wrong internal date", loose[0].lineno)
+    else:
+        ctx.ok("R8.7", where(fi), "parsedate attaches UTC only to a naive result; an aware result keeps its own zone" if reps else "parsedate returns the decoded date-time unchanged")
+
+
 def run(ctx):
     ctx.do(r8_1)
     ctx.do(r8_2)
@@ -753,6 +775,7 @@ def run(ctx):
     ctx.do(r8_5)
     ctx.do(r8_5b)
     ctx.do(r8_6)
+    ctx.do(r8_7)
     from . import c04, c16, c19
     ctx.do(c16.r16_2)
     ctx.do(c19.r19_6_7)
